@@ -72,11 +72,13 @@ package tabula
 //@   property C10
 //@   flags frameonly, releases
 //@ func (*Extractor) Lines
-//@   property C10
-//@   flags frameonly, releases
+//@   property C10, C11
+//@   flags nosafety, releases
+//@   callsite FilterFragments(pi, fr, h) requires pi == pd.index && sameseq(fr, pd.fragments)
 //@ func (*Extractor) Paragraphs
-//@   property C10
-//@   flags frameonly, releases
+//@   property C10, C11
+//@   flags nosafety, releases
+//@   callsite FilterFragments(pi, fr, h) requires pi == pd.index && sameseq(fr, pd.fragments)
 //@ func (*Extractor) ReadingOrder
 //@   property C10
 //@   flags frameonly, releases
